@@ -16,6 +16,7 @@ var tokAlphabets = map[string][]rune{
 	"expression": []rune("a1.-+/*\"'<>=!eE_ \néя\U0001F600"),
 	"csv":        []rune("a,\";\n\r я"),
 	"mustache":   []rune("a{}#/!' я\U0001F600"),
+	"generic+cpp": []rune("a1/*-.\" \n\rя"),
 }
 
 func c04Lossy(toks []tokRec, text string) bool {
@@ -137,16 +138,16 @@ func init() {
 	fw.Register(&fw.Check{
 		ID:    "C04",
 		Level: "model_checking",
-		Rule: "every string up to the length bound over a per-tokenizer alphabet with one representative of each character class that selects a different state or look-ahead branch; all seven options off; " +
+		Rule: "every string up to the length bound over a per-tokenizer alphabet with one representative of each character class that selects a different state or look-ahead branch; all seven options off (plus a generic tokenizer configured with the C++ comment state, whose code the built-in tokenizers only partly reach); " +
 			"oracle: token values concatenate to the input, tokens non-empty, single trailing Eof, TokenizeBuffer == NextToken loop; non-trivial = input on which some state pushed back at least one character (counted by the scanner wrapper)",
 		Assume: []string{"one representative per character class stands for the class", "termination decided by a deterministic scanner step budget of 64*(len+2)"},
 		Spaces: func(tier string) []fw.Space {
-			lens := map[string]int{"generic": 4, "expression": 4, "csv": 5, "mustache": 5}
+			lens := map[string]int{"generic": 4, "expression": 4, "csv": 5, "mustache": 5, "generic+cpp": 5}
 			if tier == "thorough" {
-				lens = map[string]int{"generic": 6, "expression": 6, "csv": 8, "mustache": 7}
+				lens = map[string]int{"generic": 6, "expression": 6, "csv": 8, "mustache": 7, "generic+cpp": 7}
 			}
 			sp := []fw.Space{}
-			for _, kind := range tokKinds {
+			for _, kind := range append(append([]string{}, tokKinds...), "generic+cpp") {
 				kind := kind
 				al := tokAlphabets[kind]
 				sp = append(sp, fw.Space{Name: kind, N: countStrings(len(al), lens[kind]),
